@@ -75,6 +75,36 @@ EXTRA = [
       c = c + h(0)
   return (a, c)
 '''),
+    ('p:closure_mutates_captured_object', '''def f(x, n, b, xs):
+  o = O()
+  d = {'k': 1}
+  def h(p):
+    if p > x:
+      o.v = o.v + p
+    else:
+      d['k'] = d['k'] * 2
+    w = 0
+    while w < p:
+      w = w + 1
+      o.w = o.w + d['k']
+    return w
+  r = h(n)
+  s = h(2)
+  return (r, s, o.v, o.w, d['k'])
+'''),
+    ('p:closure_loop_on_captured_dict', '''def f(x, n, b, xs):
+  d = {'k': 0}
+  acc = O()
+  def step(p):
+    for i in range(p):
+      if i > x:
+        d['k'] = d['k'] + i
+      acc.v = acc.v + 1
+    return d['k']
+  a = step(n)
+  c = step(1)
+  return (a, c, d['k'], acc.v)
+'''),
     ('p:swap_and_tuple', '''def f(x, n, b, xs):
   a = 0
   c = 1
